@@ -20,7 +20,9 @@ def compare(src: str, out: str, r: Result, what=("stack",), rgba_tol=1.5 / 255, 
     Engine attribution: when a mismatch is found and the polygonal twin of the source (all curves
     flattened to lines, everything else kept) converts without any mismatch, the mismatch is attributed to
     skia-pathops' handling of curved input (known finding ENGINE): r.excluded is set and no violation
-    is recorded.  Wrapper-logic errors (transforms, rules, clips, cascade) show on the twin as well."""
+    is recorded.  Wrapper-logic errors (transforms, rules, clips, cascade) show on the twin as well.
+    For documents with strokes a second stage attributes a mismatch that vanishes in at least 2 of 3
+    jitter twins (all absolute coordinates moved by <= 0.2 % of the viewBox) to the engine as well."""
     stats = _compare(src, out, r, what, rgba_tol, strokes, gradients, min_trusted, label)
     if attribute and r.violations and all(c in ("stack-differs", "colour-differs") for c, _ in r.violations):
         try:
@@ -35,6 +37,24 @@ def compare(src: str, out: str, r: Result, what=("stack",), rgba_tol=1.5 / 255, 
                     r.violations.clear()
                     r.excluded = "ENGINE"
                     r.info = None
+        except Exception:
+            pass
+    # second stage, stroked documents only: instability under tiny coordinate jitter (see vlib/refsvg/jitter.py)
+    if attribute and strokes and r.violations and "stroke" in src and all(c in ("stack-differs", "colour-differs") for c, _ in r.violations):
+        try:
+            from vlib.refsvg import jitter
+
+            clean = 0
+            for k in (1, 2, 3):
+                tw = jitter.jitter(src, k)
+                r2 = Result()
+                st2 = _compare(tw, (convert_fn or convert)(tw), r2, what, rgba_tol, strokes, gradients, min_trusted, label)
+                if st2 and not r2.violations and not r2.rejected:
+                    clean += 1
+            if clean >= 2:
+                r.violations.clear()
+                r.excluded = "ENGINE"
+                r.info = None
         except Exception:
             pass
     return stats
